@@ -143,6 +143,26 @@ class SymInt:
         return NotImplemented
     __rmul__ = __mul__
 
+    def _derived(self, tag, term):
+        """a non-linear function of this value becomes a fresh symbol defined by an assumption (x & mask, x >> k)"""
+        S = Session.current
+        n = len([k for k in S.symbols if k.startswith('D')])
+        name = f'D{n}{tag}'
+        S.symbols[name] = (z3.Int(name), None, None)
+        S.assumptions.append(z3.Int(name) == term)
+        return SymInt(0, {name: 1})
+
+    def __and__(self, o):
+        if isinstance(o, int) and o >= 0 and (o & (o + 1)) == 0:
+            return self._derived('and', self.z3() % (o + 1))      # Python ints are two's complement without bound: x & (2^k-1) = x mod 2^k
+        return NotImplemented
+    __rand__ = __and__
+
+    def __rshift__(self, k):
+        if isinstance(k, int) and k >= 0:
+            return self._derived('shr', self.z3() / (1 << k))     # floor division by a positive constant
+        return NotImplemented
+
     # --- comparisons (decided / forked)
     def _cmp(self, o, op):
         if not isinstance(o, (SymInt, int)):
